@@ -244,7 +244,7 @@ def snapshot(client):
     return {'rooms': rooms, 'users': users, 'privset': sorted(client.users._privileged_users)}
 
 
-def run_impl(blocked: dict, msgs: list):
+def run_impl(blocked: dict, msgs: list, env=None):
     """Send msgs through a real logged-in client; per message: (snapshot, events)."""
     from vlib.world import World
     from aioslsk.user.model import BlockingFlag
@@ -262,15 +262,45 @@ def run_impl(blocked: dict, msgs: list):
             got.append(e)
         for n in EVENT_LABELS:
             client.events.register(getattr(E, n), listener)
+        # helper-exercising environments: other listeners on the same events that raise / suspend / are registered late
+        import asyncio
+        keep = []
+        late = []
+        if env == 'raising':
+            def bad_listener(e):
+                raise RuntimeError('listener failed')
+            keep.append(bad_listener)
+        elif env == 'suspending':
+            async def slow_listener(e):
+                await asyncio.sleep(0)
+                await asyncio.sleep(0)
+            keep.append(slow_listener)
+        for fn in keep:
+            for n in EVENT_LABELS:
+                client.events.register(getattr(E, n), fn, priority=10)
+        late_from = len(msgs) // 2 if env == 'late' else None
+        all_events = []
         out = [(snapshot(client), [])]
-        for m in msgs:
+        for i, m in enumerate(msgs):
+            if late_from is not None and i == late_from:
+                def late_listener(e):
+                    late.append(_event_tuple(e))
+                keep.append(late_listener)
+                for n in EVENT_LABELS:
+                    client.events.register(getattr(E, n), late_listener)
             del got[:]
             w.server_send(to_message(m))
-            w.settle(14)
-            out.append((snapshot(client), [_event_tuple(e) for e in got]))
+            w.settle(14 if env is None else 40)
+            evs = [_event_tuple(e) for e in got]
+            if late_from is not None and i >= late_from:
+                all_events += evs
+            out.append((snapshot(client), evs))
         assert len(pins) == 3
         bad = [c for c in w.loop.unhandled if c.get('exception') is not None]
-        return out, [repr(c.get('exception')) for c in bad]
+        problems = [repr(c.get('exception')) for c in bad]
+        if late_from is not None and late != all_events:
+            problems.append(f'a listener registered later received {late} instead of {all_events}')
+        return out, problems
     finally:
         try:
             w.stop()
@@ -640,8 +670,8 @@ def model_check(run, cases, tag='c19'):
 
 # ----------------------------------------------------------------------------------------
 
-def _check_one(blocked, msgs):
-    obs, exc = run_impl(blocked, msgs)
+def _check_one(blocked, msgs, env=None):
+    obs, exc = run_impl(blocked, msgs, env)
     return obs, exc, monitor(blocked, msgs, obs)
 
 
@@ -670,14 +700,14 @@ def run(run: Run):
     cases = []
     witnessed_f24 = False
 
-    def explore(blocked, msgs, kind):
+    def explore(blocked, msgs, kind, env=None):
         nonlocal witnessed_f24
         try:
-            obs, exc, mon = _check_one(blocked, msgs)
+            obs, exc, mon = _check_one(blocked, msgs, env)
         except Exception as e:  # the real client crashed on a well-formed notification sequence
             run.add_finding(Finding('impl-exception', f'client raised {type(e).__name__}: {e}', {'blocked': blocked, 'msgs': msgs}))
             return
-        run.case({'b': blocked, 'm': msgs}, nontrivial=len(msgs) >= 3 and len({m[0] for m in msgs}) >= 2, kind=kind)
+        run.case({'b': blocked, 'm': msgs, 'env': env}, nontrivial=len(msgs) >= 3 and len({m[0] for m in msgs}) >= 2, kind=kind)
         run.count('messages', len(msgs))
         for m in msgs:
             run.count('kind:' + m[0])
@@ -720,9 +750,17 @@ def run(run: Run):
         for a in alphabet():
             explore({}, prefix + [a], f'rich{pi}')
             if run.tier != 'quick':
-                for b in alphabet()[::5]:
+                for b in alphabet()[::9]:
                     explore({}, prefix + [a, b], f'rich{pi}+2')
-    n = 100 if run.tier == "quick" else 3000
+    # helper-exercising environments (EventBus: raising / suspending / late listeners next to the handlers); all of them when a
+    # tie is broken or in the thorough tier, one sequence each otherwise
+    al = alphabet()
+    for env in ('raising', 'suspending', 'late'):
+        npre = len(RICH_PREFIXES) if (not proved or run.tier != 'quick') else 1
+        for pi in range(npre):
+            for k in range(4 if (not proved or run.tier != 'quick') else 1):
+                explore({'u2': 'IGNORE'} if k % 2 else {}, RICH_PREFIXES[pi] + al[k::4][:8], 'env:' + env, env)
+    n = 100 if run.tier == "quick" else 2000
     for i in range(n):
         explore(rng.choice(BLOCKMAPS), gen_seq(rng), 'random')
 
